@@ -1562,6 +1562,10 @@ pub fn c09_bodies() -> Vec<(&'static str, String)> {
             format!("contract V {{\n    using SafeMath for *;\n    function f(uint a, uint b) public returns (uint) {{\n{}{}        return c;\n    }}\n}}\n", calls, requires),
         ),
         (
+            "using-qualified-path",
+            format!("contract V {{\n    using Math.SafeMath for uint;\n    function f(uint a, uint b) public returns (uint) {{\n{}{}        return c;\n    }}\n}}\n", calls, requires),
+        ),
+        (
             "no-using",
             format!("contract V {{\n    using Other for uint;\n    function f(uint a, uint b) public returns (uint) {{\n{}{}        return c;\n    }}\n}}\n", calls, requires),
         ),
